@@ -69,6 +69,7 @@ def tasks(tier):
                 out.append({"kind": "names", "guard_menu": g, "act_menu": a, "late_kind": late_kind, "quick": quick, "equal": late_kind == "sync" and (g + a) % 2 == 1})
     for g in ((3,) if quick else (3, 4, 6)):
         out.append({"kind": "names", "guard_menu": g, "act_menu": 0, "late_kind": "sync", "quick": quick, "equal": False, "expr": True})
+    out.append({"kind": "per-instance", "quick": quick})
     for fm in range(4):
         for equal in (False, True):
             out.append({"kind": "attr", "guard_menu": 0, "act_menu": 0, "late_kind": "sync", "quick": quick, "equal": equal, "flag_menu": fm, "falsy": fm % 2 == 1})
@@ -83,18 +84,83 @@ BOUNDS = {
     "quick": "3-state ring driven by 3 consecutive `go` events; the guard name `ok1` and the inline action `act` provided by each of 7 (2 for act) provider sets "
     "over {machine, model, constructor listener, late listener}; `on_enter_state` and `after_go` provided by 3 sets (machine; model + both listeners; late listener only); the "
     "late listener attached before event 0, 1 or 2, once, twice in one call, or again before the next event; a second instance of the class with its own "
-    "listener must stay silent; a listener added to a shallow copy must not reach a later deep copy of the original; the guard also written as the expression 'ok1 and ok2'; guard values symbolic per provider; in half of the tasks the model class derives from statemachine.model.Model; a guard given as a plain data attribute (None at attachment, re-assigned before each event) on model / listeners; a variant whose listeners all compare equal and are falsy (define __len__ returning 0); variant in which the late listener's methods are coroutine functions on an otherwise sync machine.",
+    "listener must stay silent; a listener added to a shallow copy must not reach a later deep copy of the original; the guard also written as the expression 'ok1 and ok2'; guard values symbolic per provider; a separate scenario: 2-3 instances of one class whose constructor listener / model has plain or coroutine callbacks, in 4 creation orders, each driven afterwards; in half of the tasks the model class derives from statemachine.model.Model; a guard given as a plain data attribute (None at attachment, re-assigned before each event) on model / listeners; a variant whose listeners all compare equal and are falsy (define __len__ returning 0); variant in which the late listener's methods are coroutine functions on an otherwise sync machine.",
     "thorough": "all 7x7 guard/action provider sets.",
 }
 OUTSIDE = "callables and properties passed by reference (late listeners resolve names only, documented); more than one late listener"
-OBLIGATIONS = ["shallow-copy-listener-isolated", "attribute-guard-blocked", "attribute-guard-passed", "late-listener-called", "guard-conjunction-blocked", "guard-on-late-listener", "reattached", "second-instance-silent", "model-provider"]
+OBLIGATIONS = ["providers-per-instance", "shallow-copy-listener-isolated", "attribute-guard-blocked", "attribute-guard-passed", "late-listener-called", "guard-conjunction-blocked", "guard-on-late-listener", "reattached", "second-instance-silent", "model-provider"]
 ASSUMPTIONS = [
     "every provider of a name is called once per phase; the value of a guard name provided by several objects is the conjunction of their values (cond wants it truthy, unless wants it falsy); any evaluation order and short-circuit is accepted",
     "a late listener takes part from the first event after add_listener returns",
 ]
 
 
+def run_providers_per_instance(ctx, params):
+    """Instances of ONE machine class whose constructor listeners / models differ in kind (plain vs coroutine
+    callbacks, value-equal but distinct objects): each instance serves its own providers, in every creation order."""
+    from statemachine import State, StateMachine
+
+    with ctx.notracing():
+        class G(StateMachine):
+            a = State(initial=True)
+            b = State()
+            go = a.to(b, cond="allow") | a.to(a)
+            back = b.to(a)
+
+        class Plain:
+            def __init__(self, v):
+                self.state = None
+                self.v = v
+                self.seen = []
+
+            def allow(self):
+                self.seen.append("allow")
+                return self.v
+
+            def after_go(self, source, target):
+                self.seen.append(("after_go", source.id, target.id))
+
+        class Coro:
+            def __init__(self, v):
+                self.state = None
+                self.v = v
+                self.seen = []
+
+            async def allow(self):
+                self.seen.append("allow")
+                return self.v
+
+            async def after_go(self, source, target):
+                self.seen.append(("after_go", source.id, target.id))
+
+    via = ["listener", "model"][ctx.choose(2, "via")]
+    order = [["plain", "coro"], ["coro", "plain"], ["plain", "coro", "plain"], ["coro", "coro", "plain"]][ctx.choose(4, "order")]
+    made = []
+    for i, kind in enumerate(order):
+        v = ctx.sym_bool(f"allow{i}")
+        prov = (Plain if kind == "plain" else Coro)(v)
+        sm = G(listeners=[prov]) if via == "listener" else G(prov)
+        made.append((kind, prov, sm, v))
+    # drive them in reverse order of creation
+    for kind, prov, sm, v in reversed(made):
+        try:
+            r = sm.send("go")
+        except Exception as e:  # noqa: BLE001
+            if type(e).__name__ == "NotDeterministic":
+                raise
+            raise Mismatch(f"instance-broken-by-sibling-providers:{via}:{kind}", f"creation order {order}: send raised {type(e).__name__}: {e}")
+        want = "b" if v else "a"
+        got = sm.current_state.id
+        exp_seen = ["allow", ("after_go", "a", want)]
+        if got != want or prov.seen != exp_seen or r is not None:
+            raise Mismatch(f"instance-broken-by-sibling-providers:{via}:{kind}", f"creation order {order}: the {kind} provider's guard returned {bool(v)}: state {got} (expected {want}), "
+                           f"its callbacks ran {prov.seen} (expected {exp_seen}), send returned {r!r}")
+    ctx.cover("providers-per-instance")
+
+
 def run(ctx, params):
+    if params.get("kind") == "per-instance":
+        return run_providers_per_instance(ctx, params)
     from statemachine.exceptions import InvalidDefinition
 
     quick = params["quick"]
